@@ -340,6 +340,11 @@ func (c *Ctx) certainlyNonNil(v ssa.Value, gs []guard, depth int) bool {
 		return x.Value != nil
 	case *ssa.Slice:
 		return true
+	case *ssa.Parameter:
+		// the receiver of a method: callers do not invoke methods on nil receivers (stated assumption)
+		if fn := x.Parent(); fn != nil && fn.Signature.Recv() != nil && len(fn.Params) > 0 && fn.Params[0] == x {
+			return true
+		}
 	}
 	return false
 }
@@ -1321,6 +1326,10 @@ func rulePanicNilRes(c *Ctx) []*Obligation {
 				}
 				if guarded {
 					o.ok(key, c.Pos(d.Pos()), "dominated by a non-nil test")
+					continue
+				}
+				if op := derefOperand(d); op != nil && c.certainlyNonNil(op, guardsAt(d.Block()), 5) {
+					o.ok(key, c.Pos(d.Pos()), "the dereferenced value is non-nil on every edge it arrives by (nil-tested before it is merged)")
 					continue
 				}
 				// (2) cursor typestate
